@@ -25,6 +25,9 @@ enum Via {
     OwnManagerNoCache,
     OwnManagerCachedWarm,
     SecondManager,
+    /// through the directory's own manager while a storage transaction is open (as during an in-flight
+    /// publish): the tombstones join the transaction and are committed with an unchanged epoch record
+    InsideTransaction,
 }
 
 fn params_menu(total: usize) -> Vec<HistoryParams> {
@@ -101,12 +104,12 @@ impl<'r, TC: ModelCfg> HistVisitor<TC> for V20<'r> {
                 }
                 let latest_update = versions.last().unwrap().1;
                 for cutoff in 0..latest_update {
-                    for via in [Via::OwnManagerNoCache, Via::OwnManagerCachedWarm, Via::SecondManager] {
+                    for via in [Via::OwnManagerNoCache, Via::OwnManagerCachedWarm, Via::SecondManager, Via::InsideTransaction] {
                         let db = ctx.db.fork().await;
                         let before = db.dump().await;
-                        let mgr = manager(&db, if via == Via::OwnManagerNoCache { CacheCfg::None } else { CacheCfg::Default });
+                        let mgr = manager(&db, if via == Via::OwnManagerNoCache || via == Via::InsideTransaction { CacheCfg::None } else { CacheCfg::Default });
                         let dir: Dir<TC> = Directory::<TC, _, _>::new(mgr.clone(), GateVrf::new(), AzksParallelismConfig::disabled()).await.unwrap();
-                        if via != Via::OwnManagerNoCache {
+                        if via != Via::OwnManagerNoCache && via != Via::InsideTransaction {
                             // warm the cache with this label's material
                             let _ = dir.key_history(&AkdLabel(label.clone()), HistoryParams::Complete).await;
                             let _ = dir.lookup(AkdLabel(label.clone())).await;
@@ -115,7 +118,25 @@ impl<'r, TC: ModelCfg> HistVisitor<TC> for V20<'r> {
                         let ident = |k: &str| format!("{}/{:?}/{}", TC::NAME, via, k);
                         let cx = || json!({"history": hist(), "label": show_bytes(label), "cutoff_epoch": cutoff, "latest_update_epoch": latest_update, "via": format!("{via:?}")});
                         self.rep.eval(1);
-                        if let Err(e) = tomb_mgr.tombstone_value_states(&AkdLabel(label.clone()), cutoff).await {
+                        let tomb_result = if via == Via::InsideTransaction {
+                            use akd::storage::types::DbRecord as R;
+                            let azks = match mgr.get::<akd::Azks>(&akd::append_only_zks::DEFAULT_AZKS_KEY).await {
+                                Ok(R::Azks(a)) => a,
+                                other => panic!("no epoch record: {other:?}"),
+                            };
+                            assert!(mgr.begin_transaction());
+                            let r = mgr.tombstone_value_states(&AkdLabel(label.clone()), cutoff).await;
+                            let _ = mgr.set(R::Azks(azks)).await;
+                            let c = mgr.commit_transaction().await;
+                            match (r, c) {
+                                (Ok(()), Ok(_)) => Ok(()),
+                                (Err(e), _) => Err(e),
+                                (_, Err(e)) => Err(e),
+                            }
+                        } else {
+                            tomb_mgr.tombstone_value_states(&AkdLabel(label.clone()), cutoff).await
+                        };
+                        if let Err(e) = tomb_result {
                             self.rep.violation(ident("tombstone_failed"), json!({"ctx": cx(), "error": format!("{e:?}")}));
                             continue;
                         }
